@@ -154,6 +154,21 @@ def sparse_selftest(seed=0, rounds=12):
     cr, cm = sp.coo_array((dr, ([0, 1], [1, 0])), shape=(2, 2)), M.coo_array((dm, ([0, 1], [1, 0])), shape=(2, 2))
     cr.data *= 3.0; cm.data *= 3.0
     assert (dr[0] == 3.0) == (float(dm[0]) == 3.0), "constructor aliasing of the data array"; n_cmp += 1
+    # kron / identity, including scipy's BSR shortcut for a half-full second operand (explicit zeros become stored entries)
+    for Bm in (np.array([[0, 2., 0], [2, 0, 3], [0, 3, 0]]), np.array([[0, 2., 5], [2, 0, 3], [5, 3, 0]]), np.array([[0, 1.], [1, 0]]), np.array([[0, 0.], [0, 0]])):
+        for nrep in (1, 2, 3):
+            K_r, K_m = sp.kron(sp.identity(nrep), sp.coo_array(Bm)), M.kron(M.identity(nrep), M.coo_array(Bm))
+            assert K_r.format == K_m.format or (K_r.format == "coo" and K_m.format == "coo"), ("kron format", K_r.format, K_m.format)
+            _eq_dense(K_r, K_m, "kron"); n_cmp += 1
+            S_r = sp.coo_array(([7.0, 7.0], ([0, K_r.shape[0] - 1], [K_r.shape[0] - 1, 0])), shape=K_r.shape)
+            S_m = M.coo_array((np.array([7.0, 7.0], dtype=object), ([0, K_r.shape[0] - 1], [K_r.shape[0] - 1, 0])), shape=K_r.shape)
+            R_r, R_m = K_r + S_r, K_m + S_m
+            assert R_r.format == R_m.format, ("kron + coo format", R_r.format, R_m.format)
+            _eq_struct(R_r.tocoo(), R_m.tocoo(), "(kron + coo).tocoo"); n_cmp += 1
+            _eq_struct(R_r.tocsr(), R_m.tocsr(), "(kron + coo).tocsr"); n_cmp += 1
+            assert R_r.nnz == R_m.nnz, ("nnz", R_r.nnz, R_m.nnz)
+            if R_r.format == "bsr":
+                assert _raises(lambda: R_r.row) is AttributeError and _raises(lambda: R_m.row) is AttributeError; n_cmp += 1
     # dok counting
     rk = sp.dok_array((3, 3)); mk = M.DDok((3, 3))
     for (i, j) in [(0, 1), (0, 1), (2, 2), (1, 0)]:
